@@ -8,7 +8,7 @@ CFG = {
     "stages": ["go:gen", "go:impl", "lean:judge"],
     "theorems": [T + n for n in [
         "C12_minDist_spec", "C12_minMaxDist_spec", "C12_prune_sound_k1", "C12_nn", "C12_empty",
-        "C12_insertNearest_topk", "C12_knn", "C12_knn_one", "C12_knn_all", "C12_stableOrder_ok", "C12_history"]],
+        "C12_insertNearest_topk", "C12_knn", "C12_knn_one", "C12_knn_all", "C12_stableOrder_ok", "C12_history", "C12_knn_empty"]],
     "trusted_base": [
         "Lean 4.33.0 kernel; axioms of every theorem printed by #print axioms must be within {propext, Classical.choice, Quot.sound}",
         "model lean/GeomV/C12/Model.lean (nearestNeighbor, nearestNeighbors, insertNearest, sortEntries as a visiting-order parameter, "
